@@ -188,11 +188,13 @@ class Base:
         uneliminatable_annotations = frozenset(a for a in annotations if not (a.eliminatable or a.relocatable))
         relocatable_annotations = frozenset(a for a in annotations if not a.eliminatable and a.relocatable)
 
-        if not skip_child_annotations:
-            for a in b_args:
-                uneliminatable_annotations |= a._uneliminatable_annotations
-                relocatable_annotations |= a._relocatable_annotations
+        # the derived sets describe the whole subtree, whichever way the node is built: a node is hash-consed, so
+        # whoever builds it first decides what everybody else gets
+        for a in b_args:
+            uneliminatable_annotations |= a._uneliminatable_annotations
+            relocatable_annotations |= a._relocatable_annotations
 
+        if not skip_child_annotations:
             annotations = tuple(frozenset((*annotations, *relocatable_annotations)))
 
         hash_ = Base._calc_hash(op, a_args, annotations, length)
@@ -246,10 +248,10 @@ class Base:
         ):
             uneliminatable_annotations = frozenset(
                 anno for anno in annotations if not anno.eliminatable and not anno.relocatable
-            )
+            ).union(*(a._uneliminatable_annotations for a in args if isinstance(a, Base)))
             relocatable_annotations = frozenset(
                 anno for anno in annotations if not anno.eliminatable and anno.relocatable
-            )
+            ).union(*(a._relocatable_annotations for a in args if isinstance(a, Base)))
 
             cache = type(self)._hash_cache
             h = Base._calc_hash(op, args, annotations, length)
